@@ -108,7 +108,15 @@ func plantedCases(env *core.Env, count int) []core.Case {
 	// sizes random formulas never reach: a planted core in which conflicts occur, next to a pair of clauses
 	// (x_1 v ... v x_k v a), (x_1 v ... v x_k v -a) over k fresh variables, k in the hundreds and thousands
 	// (conflict analyses and learned clauses of that width); one of the x is planted true
-	for i := 0; i < env.Pick(160, 1500); i++ {
+	res = append(res, wideClauseCases(env, env.Pick(160, 1500), false)...)
+	return res
+}
+
+// wideClauseCases: see plantedCases; with cert the emitted lines are checked as well (C06).
+func wideClauseCases(env *core.Env, count int, cert bool) []core.Case {
+	r := env.Rand
+	var res []core.Case
+	for i := 0; i < count; i++ {
 		ny := 18 + r.Intn(16)
 		nx := []int{120, 1001 + r.Intn(400), 1001 + r.Intn(400), 2050 + r.Intn(100)}[r.Intn(4)]
 		clauses, w := gen.PlantedKSAT(r, ny, int((4.0+0.6*r.Float64())*float64(ny)), 3)
@@ -121,7 +129,7 @@ func plantedCases(env *core.Env, count int) []core.Case {
 		w[ny+r.Intn(nx)] = true
 		w1, w2 = append(w1, a), append(w2, -a)
 		clauses = append([][]int{w1, w2}, clauses...)
-		cfg := gen.Cfg(false, 0, 0, false, false, false)
+		cfg := gen.Cfg(cert, 0, 0, false, false, false)
 		c := gen.APICase([]string{"slicenb", "dimacs"}[r.Intn(2)], ny+nx, true, gen.ClauseCtors(clauses), false, nil, cfg, []gen.M{gen.Op("solve")})
 		c["tm"], c["witness"] = "CertTrace", w
 		res = append(res, c)
